@@ -21,3 +21,6 @@ import NbioVerif.Lemmas.SrcBridgeHttp
 #print axioms Http.state_table
 #print axioms Http.isToken_rfc
 #print axioms Http.src_isToken
+#print axioms Http.c06_dlines
+#print axioms Http.c06_dlines_segmentation
+#print axioms HttpEngine.chainE_eq_feedAllL
